@@ -72,6 +72,13 @@ CHECKS = {
              'a leading BOM must not change anything, and twelve unsupported source types must raise TypeError.',
         note='Files are written as UTF-8 by the harness into a temporary directory created and removed by the check. parse_file takes no options and is compared under the default option set only.',
         design='DESIGN.md §3 C12'),
+    'C13': dict(
+        level='exploration', technique='exhaustive enumeration of all strings up to the length bound over a critical alphabet (plus all 2-character strings over an extended one) at every text-bearing site; independent reference normaliser; three string styles; DDL reader for SQL',
+        text='Every string over {a, space, newline, single and double quote, backslash, backtick} up to length 3 (quick) / 5 (thorough) and every string of length <= 2 over 21 characters is placed at 15 sites of one document with sentinels; '
+             'parse side: stored text equals the reference normalisation (notes) or the text itself, all string styles agree, re-parsing the stored text is idempotent, sentinels untouched; render side: API-built and parsed databases '
+             'round-trip the text through .dbml; SQL side: one COMMENT ON literal per note with quotes neutralised, expressions verbatim inside parentheses. Failures are isolated to a single site before they are reported.',
+        note='Tab is excluded (not printable; pyparsing expands it). Texts without a non-blank line are checked for agreement and idempotence only. Three recorded findings (multi-line text in settings position, three consecutive single quotes, multi-line expression in CREATE TABLE) matched by shape predicates.',
+        design='DESIGN.md §3 C13'),
     'C15': dict(
         level='model_checking', technique='two-configuration traversal of the C01 derivation BFS (option on / off), exhaustive property placement product x 5 styles, all flag-flip sequences up to length 3',
         text='Every property-free BFS state and a pack of every C01 product is parsed under both option values and must differ in the flag only; every combination of 0-2 table-body properties at every position and 0-2 column properties '
